@@ -57,4 +57,75 @@ theorem window_ok_toggled (t0 : Int) (es : List (Bool × Ev)) (hv : ValidT (fres
 /-- and a line written with Flood set is never held back -/
 theorem toggled_unprotected_not_delayed (s : St) (e : Ev) : (writeStep true s e).2 = 0 := rfl
 
+/-! ### "exactly when": no over-throttling after silence -/
+
+namespace Quiet
+
+theorem totalCharge_nonneg (es : List Ev) : 0 ≤ totalCharge es := by
+  induction es with
+  | nil => simp [totalCharge]
+  | cons x xs ih =>
+    have := charge_nonneg x.chars
+    simp only [totalCharge, List.map_cons, List.sum_cons] at ih ⊢
+    omega
+
+/-- no line of the run is held back -/
+def NoHold : St → List Ev → Prop
+  | _, [] => True
+  | s, e :: es => delay s e = 0 ∧ NoHold (next s e) es
+
+/-- from a state whose penalty is at most `b`, lines whose charges sum (with `b`) to at most 10 s are not held:
+elapsed time only ever lowers the penalty -/
+theorem noHold_of_budget (s : St) (pw : Int) (es : List Ev) (hl : s.lastsent ≤ pw) (hv : Valid s pw es)
+    (b : Int) (hb0 : 0 ≤ b) (hb : s.badness ≤ b) (hsum : b + totalCharge es ≤ 10 * second) : NoHold s es := by
+  induction es generalizing s pw b with
+  | nil => trivial
+  | cons e es ih =>
+    obtain ⟨h1, h2, h3, h4⟩ := hv
+    have hc := charge_nonneg e.chars
+    have hrest := totalCharge_nonneg es
+    have hT : totalCharge (e :: es) = charge e.chars + totalCharge es := by simp [totalCharge]
+    -- the new penalty is at most b + charge
+    have hn : (next s e).badness ≤ b + charge e.chars := by
+      simp only [next, rate_fst]; split <;> omega
+    have hd : delay s e = 0 := by
+      unfold delay; rw [rate_snd, rate_fst]
+      have : ¬ ((if s.badness + (charge e.chars - (e.t - s.lastsent)) < 0 then 0
+                else s.badness + (charge e.chars - (e.t - s.lastsent))) > 10 * second) := by
+        split <;> omega
+      simp [this]
+    exact ⟨hd, ih (next s e) e.w (by simp only [next]; omega) h4 (b + charge e.chars) (by omega) hn (by omega)⟩
+
+end Quiet
+
+open Quiet in
+/-- **no over-throttling** ("held back EXACTLY when the penalty exceeds 10 s", "decays in real time"): in any state
+reachable from a fresh client, once the client has been silent for 10 s since its last write the penalty has decayed to
+nothing - whatever it was, the invariant bounds it by 10 s plus the time already served - and the next lines, as long as
+their charges sum to at most 10 s, all go out without a hold -/
+theorem quiet_after_idle (s : St) (pw : Int) (hI : Inv s pw) (es : List Ev) (hv : Valid s pw es)
+    (hidle : ∀ e ∈ es.head?, pw + 10 * second ≤ e.t) (hsum : totalCharge es ≤ 10 * second) : NoHold s es := by
+  cases es with
+  | nil => trivial
+  | cons e es =>
+    obtain ⟨hb, hl, hs⟩ := hI
+    obtain ⟨h1, h2, h3, h4⟩ := hv
+    have hi := hidle e (by simp)
+    have hc := charge_nonneg e.chars
+    have hT : totalCharge (e :: es) = charge e.chars + totalCharge es := by simp [totalCharge]
+    -- after the idle gap the first line's penalty is just its own charge
+    have hn : (next s e).badness ≤ charge e.chars := by
+      simp only [next, rate_fst]; split <;> omega
+    have hrest := totalCharge_nonneg es
+    have hd : delay s e = 0 := by
+      unfold delay; rw [rate_snd, rate_fst]
+      have : ¬ ((if s.badness + (charge e.chars - (e.t - s.lastsent)) < 0 then 0
+                else s.badness + (charge e.chars - (e.t - s.lastsent))) > 10 * second) := by
+        split <;> omega
+      simp [this]
+    exact ⟨hd, noHold_of_budget (next s e) e.w es (by simp only [next]; omega) h4 (charge e.chars) hc hn (by omega)⟩
+
+/-- non-vacuity: four 20-byte lines (charge 2.17 s each) after 16 s of silence meet the premises -/
+example : totalCharge [⟨20, 0, 0, 0⟩, ⟨20, 0, 0, 0⟩, ⟨20, 0, 0, 0⟩, ⟨20, 0, 0, 0⟩] ≤ 10 * second := by decide
+
 end Props.C10
